@@ -748,6 +748,8 @@ pub fn full_ttl_suites(thorough: bool) -> Vec<Suite> {
         c.cache = false;
         let mut s = crash_suite(&format!("full-ttl{blocks}-v3"), c, std_tables(), full_ttl_ops(), if thorough { deep } else { quick });
         s.log_io = false;
+        // small, known cost: the quick depth is a floor, not subject to the time cap
+        s.uncapped_levels = if blocks == 2 { 7 } else { 1 };
         v.push(s);
     }
     v
@@ -777,7 +779,8 @@ pub fn partition_suites(thorough: bool) -> Vec<Suite> {
             vec![ins(0, l1), ins(1, l1 + 1), Op::Delete { k: 0, ts: 0 }, Op::Flush, Op::Reopen]
         };
         let mut s = crash_suite("part-large-v3", small_disk(3, 2000), t, ops, d(6, 7));
-        s.uncapped_levels = 1;
+        // small, known cost (a few seconds): the quick depth is a floor, not subject to the time cap
+        s.uncapped_levels = 6;
         v.push(s);
     }
     v
